@@ -349,6 +349,17 @@ impl Set {
         th.unpark(active);
     }
 
+    /// Wake up a thread that is blocked waiting for a notification of the
+    /// active thread (as opposed to `unpark`, which only ends a `park`).
+    pub(crate) fn notify(&mut self, id: Id) {
+        debug_assert!(id != self.active_id());
+
+        // Synchronize memory
+        let (active, th) = self.active2_mut(id);
+        th.causality.join(&active.causality);
+        th.set_runnable();
+    }
+
     /// Insert a point of sequential consistency
     /// TODO
     /// - Deprecate SeqCst accesses and allow SeqCst fences only. The semantics of SeqCst accesses
